@@ -712,6 +712,50 @@ NativeColl(m, name, args, env, x, lc, fuel) ==
                             ELSE v.c[i]])
                ELSE IF v.t = "bytes" THEN Unk ELSE IFail))
     [] name = "utf8bytelength" /\ n = 0 -> Con(G(IF IsStr(v) THEN IntV(Len(BytesOf(v))) ELSE IFail))
+    \* number classes (manual, "isnan, isinfinite, isfinite, isnormal"): NaN is a number that is not infinite, hence finite;
+    \* normal = a number that is neither 0 (of either sign, in any representation), NaN nor infinite
+    [] name = "isnan" /\ n = 0 -> Con(G(Bool(v = NaN)))
+    \* a decimal literal with an exponent may exceed the range of doubles (1e1000 == infinite): left open
+    [] name \in {"isinfinite", "isfinite", "isnormal"} /\ n = 0 /\ v.t = "dec" /\ (\E i \in 1..Len(v.ds) : v.ds[i] \in {69, 101}) -> Con(G(Unk))
+    [] name = "isinfinite" /\ n = 0 -> Con(G(Bool(v \in {Inf, NInf})))
+    [] name = "isfinite" /\ n = 0 -> Con(G(Bool(IsNum(v) /\ v \notin {Inf, NInf})))
+    [] name = "isnormal" /\ n = 0 ->
+         Con(G(Bool(IsNum(v) /\ v.t # "fsp" /\ v.t # "nz" /\ (IF v.t = "big" THEN ~IntIsZero(v)
+                                                                      ELSE IF v.t = "dec" THEN ~DecIsZero(v.ds)
+                                                                      ELSE NumP(v) # 0))))
+    \* trim, ltrim, rtrim (manual, "trim"): remove leading / trailing characters with the Unicode property White_Space
+    [] name \in {"trim", "ltrim", "rtrim"} /\ n = 0 ->
+         Con(G(IF v.t = "str"
+               THEN LET s == v.c
+                        lead == IF name = "rtrim" THEN 0
+                                ELSE SetMax({k \in 0..Len(s) : \A i \in 1..k : IsWhiteSpace(s[i])})
+                        trail == IF name = "ltrim" THEN 0
+                                 ELSE SetMax({k \in 0..(Len(s) - lead) : \A i \in (Len(s) - k + 1)..Len(s) : IsWhiteSpace(s[i])})
+                    IN StrV(SubSeq(s, lead + 1, Len(s) - trail))
+               ELSE IF v.t = "bytes" THEN Unk ELSE IFail))
+    \* tonumber / toboolean (manual): a number / boolean is returned unchanged, a string is parsed, anything else fails.
+    \* The specified strings are integer literals of at most nine digits and the texts that spell a JSON value of another
+    \* kind; all other texts (floats, exponents, blanks, NaN, ...) are left open
+    [] name \in {"tonumber", "toboolean"} /\ n = 0 ->
+         Con(G(IF name = "tonumber" /\ IsNum(v) THEN v
+               ELSE IF name = "toboolean" /\ v.t = "bool" THEN v
+               ELSE IF v.t = "bytes" THEN Unk
+               ELSE IF v.t # "str" THEN IFail
+               ELSE LET s == v.c
+                        neg == s # <<>> /\ s[1] = 45
+                        ds == IF neg THEN Tail(s) ELSE s
+                        isint == ds # <<>> /\ Len(ds) <= 9 /\ (\A i \in 1..Len(ds) : ds[i] >= 48 /\ ds[i] <= 57) /\ (Len(ds) = 1 \/ ds[1] # 48)
+                        RECURSIVE val(_)
+                        val(k) == IF k = 0 THEN 0 ELSE 10 * val(k - 1) + (ds[k] - 48)
+                        other == {Ascii("true"), Ascii("false"), Ascii("null"), Ascii("[42]"), Ascii("[true]"), Ascii("{}"), Ascii("[]"), <<>>,
+                                  Ascii("abc"), Ascii("1 2"), Ascii("1,2"), Ascii("--1"), << 32 >>, Ascii("true false"), << 34, 49, 34 >>, << 34, 116, 114, 117, 101, 34 >>}
+                    IN IF isint THEN (IF name = "toboolean" THEN IFail
+                                      ELSE IF neg /\ val(Len(ds)) = 0 THEN Unk   \* "-0": an integer or the float -0.0
+                                      ELSE IntV(IF neg THEN -val(Len(ds)) ELSE val(Len(ds))))
+                       ELSE IF name = "toboolean" /\ s = Ascii("true") THEN True
+                       ELSE IF name = "toboolean" /\ s = Ascii("false") THEN False
+                       ELSE IF s \in other THEN IFail
+                       ELSE Unk))
     [] name \in {"floor", "round", "ceil"} /\ n = 0 ->
          Con(G(IF IsInt(v) THEN IntV(NumP(v))
                ELSE IF v.t \in {"flt", "dec"} THEN
@@ -750,7 +794,7 @@ NatUpd(name, args, env, v, u, lc, fuel) ==
     [] name \in {"first", "last"} /\ Len(args) = 0 -> End(UnkT)   \* manual: short for first(.[]) (not updatable); jaq: .[0]
     [] name \in {"first", "last", "limit", "skip", "path", "path_value", "range", "true", "false", "null", "not",
                  "keys_unsorted", "key_values", "length", "has", "tojson", "tostring", "sort", "reverse",
-                 "tobytes", "isempty", "@text", "@json"} -> ErrS(IErr)
+                 "tobytes", "isempty", "@text", "@json", "isnan", "isinfinite", "isfinite", "isnormal"} -> ErrS(IErr)
     [] OTHER -> End(UnsupT)
 
 -----------------------------------------------------------------------------
